@@ -398,6 +398,9 @@ fn two_chambers_swapped(dim: usize, vs: &[usize]) -> Tab {
     t
 }
 
+/// the hard-coded regression witness of section (0b)
+const WITNESS: bool = true;
+
 fn main() {
     let mut ctx = Ctx::from_args();
     let th = ctx.thorough();
@@ -426,6 +429,15 @@ fn main() {
                 ctx.case("selftest", "nt oracle", || format!("{} {}", s4z2.enc(), j), || n.to_string());
             }
         }
+    }
+
+    // (0b) regression inputs (corpus/regress/C05/): the 4-simplex group S5 with the subgroup
+    //      generated by [-1] and [3,2,-4,-3,2] (all of S5) — a seeded change of the final
+    //      clean-up pass of `coset_table` (rows 0..#live only) leaves a relator violated at a
+    //      high-numbered live row and `subgroup_cover` returns 3 chambers with m01 = 2
+    if WITNESS {
+        let a4 = parse_symbol("<1.1:1 3:1,1,1,1:3,3,3>");
+        subgroup_case(&mut ctx, &a4, &[vec![-1], vec![3, 2, -4, -3, 2]], "nt regress spherical dim=3 size=1");
     }
 
     // (1) connected complete symbols: oriented cover, covers up to k sheets, `cover` with
@@ -610,7 +622,70 @@ fn main() {
         }
         covers_known_case(&mut ctx, &parse_symbol("<1.1:2:2,2,2:4,3>"), if th { 24 } else { 12 }, &known, "nt regress canonicity dim=2 size=2 known=S4");
     }
+    // (7) subgroup_cover with MANY-generator random subgroups: 1..5 generators of length 1..8
+    //     (two thirds) or 1..4 generators of length 1..14 (one third), letters over all
+    //     generators and inverses.  Such enumerations run into many coincidences in the main
+    //     loop of Todd-Coxeter, so rows merged away, rows renumbered by compact() and relators
+    //     first closed by the final clean-up pass all occur; nearly all these subgroups have
+    //     small index, so the cases are cheap.  Bases: the one- and two-chamber spherical 3D
+    //     Coxeter symbols and spherical 2D symbols.  (Own rng stream: the cases of the other
+    //     sections do not depend on this one.)
+    {
+        let mut rng7 = ctx.rng(57);
+        let scale = if th { 10 } else { 1 };
+        let mut bases: Vec<(Tab, usize)> = vec![
+            (one_chamber(3, &[3, 3, 3]), 9000),
+            (two_chambers_swapped(3, &[3, 3, 3]), 4000),
+            (two_chambers_swapped(3, &[4, 3, 3]), 3000),
+            (one_chamber(3, &[4, 3, 3]), 1500),
+            (one_chamber(3, &[3, 3, 4]), 500),
+            (one_chamber(3, &[3, 4, 3]), 400),
+            (one_chamber(3, &[3, 3, 2]), 1200),
+            (one_chamber(3, &[2, 3, 3]), 300),
+            (one_chamber(3, &[2, 2, 2]), 300),
+        ];
+        // spherical 2D: all symbols with n <= 2 over {1..5}, n = 3 over {1,2,3,5}
+        let mut sph2: Vec<Tab> = vec![];
+        for n in 1..=3 {
+            for t in dsets(2, n, true, true, false) {
+                let vals: &[usize] = if n <= 2 { &[1, 2, 3, 4, 5] } else { &[1, 2, 3, 5] };
+                for s in all_vs(&t, vals) {
+                    if curvature(&s).0 > 0 {
+                        sph2.push(s);
+                    }
+                }
+            }
+        }
+        let per2 = (7000 / sph2.len().max(1)).max(1);
+        for s in sph2 {
+            bases.push((s, per2));
+        }
+        for (t, cnt) in &bases {
+            let ng = nr_generators(t);
+            if ng == 0 {
+                continue;
+            }
+            let tag = format!("nt spherical manygens dim={} size={}", t.dim, t.size);
+            for k in 0..cnt * scale {
+                let (maxw, maxlen) = if k % 3 == 2 { (4, 14) } else { (5, 8) };
+                let nw = 1 + rng7.below(maxw);
+                let subs: Vec<Vec<isize>> = (0..nw)
+                    .map(|_| {
+                        let len = 1 + rng7.below(maxlen);
+                        (0..len)
+                            .map(|_| {
+                                let x = 1 + rng7.below(ng) as isize;
+                                if rng7.chance(1, 2) { x } else { -x }
+                            })
+                            .collect()
+                    })
+                    .collect();
+                subgroup_case(&mut ctx, t, &subs, &tag);
+            }
+        }
+    }
     ctx.finish();
+
 }
 
 /// every branching assignment with all degrees m = r*v <= max_m (up to `cap` symbols, a seeded
